@@ -4,6 +4,13 @@ import Ctrmml.Spec.MdsData
 namespace Ctrmml.MdsData
 open Ctrmml.MdsSpec
 
+/-- decidable equality of results (for the `example`s on concrete definitions) -/
+instance exceptDecEq {ε α} [DecidableEq ε] [DecidableEq α] : DecidableEq (Except ε α)
+  | .ok a, .ok b => if h : a = b then isTrue (by rw [h]) else isFalse (by intro h'; cases h'; exact h rfl)
+  | .error a, .error b => if h : a = b then isTrue (by rw [h]) else isFalse (by intro h'; cases h'; exact h rfl)
+  | .ok _, .error _ => isFalse (by intro h; cases h)
+  | .error _, .ok _ => isFalse (by intro h; cases h)
+
 theorem fm4opBytes_eq (td : List Nat) (tr : Nat) :
     fm4opBytes td tr =
       [fmField td 0 0, fmField td 0 1, fmField td 0 2, fmField td 0 3,
@@ -778,13 +785,13 @@ theorem shape_of_ok {α} (A : Arith α) (hA : SlideOK A) (items : List PsgItem) 
 
 theorem u8_small (k : Nat) (h : k < 256) : u8 (k : Int) = k := by simp only [u8]; omega
 
-/-- the full PSG clause modulo `SlideOK` -/
-theorem psg_full_aux {α} (A : Arith α) (hA : SlideOK A) (items : List PsgItem)
-    (hok : itemsOk items false = true) (hfit : psgSize items < 256) :
-    ∃ e, expandPsg (psgFinish (items.foldl (psgItem A) {})) = some e ∧
-      e.frames = items.flatMap (itemFrames A) ∧
-      e.sustains = refSus items 0 ∧ e.loopTo = refLoop items 0 none ∧
-      psgMeets items e = true := by
+/-- the compiler state after the written items: value/sustain bytes only, the frames, the
+sustain positions, the loop relation and the size bound -/
+theorem psg_state {α} (A : Arith α) (hA : SlideOK A) (items : List PsgItem)
+    (hok : itemsOk items false = true) :
+    let st := items.foldl (psgItem A) {}
+    (∀ b ∈ st.env, b = 1 ∨ (16 ≤ b ∧ b < 256)) ∧ F st.env = items.flatMap (itemFrames A) ∧
+      Sus st.env 0 = refSus items 0 ∧ LoopRel st (refLoop items 0 none) ∧ st.env.length ≤ psgSize items := by
   have hsh := shape_of_ok A hA items false hok
   have hlen : LenOK A items := by
     intro i t n hm
@@ -802,12 +809,32 @@ theorem psg_full_aux {α} (A : Arith α) (hA : SlideOK A) (items : List PsgItem)
   have hS0 : Sus ({} : PsgSt).env 0 = [] := rfl
   simp only [hF0, hS0, List.nil_append, List.length_nil, evFrames_items, evSus_items A items 0 hlen,
     evLoop_items A items 0 none hlen] at hF hS hL
-  generalize items.foldl (psgItem A) {} = st at hb hF hS hL
-  have hsize : st.env.length < 256 := by
-    have h1 := length_le_frames st.env 0 hb
-    have h2 := size_items A items 0 hlen
-    rw [hF, hS] at h1
-    omega
+  refine ⟨hb, hF, hS, hL, ?_⟩
+  have h1 := length_le_frames _ 0 hb
+  have h2 := size_items A items 0 hlen
+  rw [hF, hS] at h1
+  omega
+
+/-- the loop position is `-1` or a byte index inside the envelope, hence at most the written size -/
+theorem psg_loopPos_le {α} (A : Arith α) (hA : SlideOK A) (items : List PsgItem)
+    (hok : itemsOk items false = true) :
+    (items.foldl (psgItem A) {}).loopPos ≤ psgSize items := by
+  obtain ⟨_, _, _, hL, hsz⟩ := psg_state A hA items hok
+  rcases hL with ⟨h1, _⟩ | ⟨k, h1, h2, _⟩
+  · rw [h1]; omega
+  · rw [h1]; omega
+
+/-- the full PSG clause modulo `SlideOK`, for every envelope whose loop position fits its byte
+(what `psgEnd` checks) -/
+theorem psg_full_aux {α} (A : Arith α) (hA : SlideOK A) (items : List PsgItem)
+    (hok : itemsOk items false = true) (hlp : (items.foldl (psgItem A) {}).loopPos ≤ 255) :
+    ∃ e, expandPsg (psgFinish (items.foldl (psgItem A) {})) = some e ∧
+      e.frames = items.flatMap (itemFrames A) ∧
+      e.sustains = refSus items 0 ∧ e.loopTo = refLoop items 0 none ∧
+      psgMeets items e = true := by
+  have hsh := shape_of_ok A hA items false hok
+  obtain ⟨hb, hF, hS, hL, _⟩ := psg_state A hA items hok
+  generalize items.foldl (psgItem A) {} = st at hb hF hS hL hlp
   have key : ∃ e, expandPsg (psgFinish st) = some e ∧ e.frames = items.flatMap (itemFrames A) ∧
       e.sustains = refSus items 0 ∧ e.loopTo = refLoop items 0 none := by
     unfold psgFinish expandPsg
@@ -828,5 +855,33 @@ theorem psg_full_aux {α} (A : Arith α) (hA : SlideOK A) (items : List PsgItem)
   unfold psgMeets
   rw [k2]
   exact checkPsg_ok A items 0 [] none e hsh (by simpa using k3) k4
+
+theorem psg_loop_max_eq : ((Tables.mdsdrv_psg_loop_max : Nat) : Int) = 255 := rfl
+
+/-- `psgEnd` accepts exactly the states whose loop position fits the byte, and then emits `psgFinish` -/
+theorem psgEnd_ok (id : Nat) (st : PsgSt) (bytes : NBytes) :
+    psgEnd id st = .ok bytes ↔ st.loopPos ≤ 255 ∧ bytes = psgFinish st := by
+  unfold psgEnd
+  have hv := psg_loop_max_eq
+  by_cases h : st.loopPos > (Tables.mdsdrv_psg_loop_max : Int)
+  · rw [if_pos h]
+    constructor
+    · intro h'; cases h'
+    · intro h'; omega
+  · rw [if_neg h]
+    constructor
+    · intro h'; cases h'; exact ⟨by omega, rfl⟩
+    · intro h'; rw [h'.2]
+
+theorem psgEnd_error (id : Nat) (st : PsgSt) (e : Err) (h : psgEnd id st = .error e) :
+    255 < st.loopPos ∧ ∃ msg, e = .input msg := by
+  unfold psgEnd at h
+  have hv := psg_loop_max_eq
+  by_cases h' : st.loopPos > (Tables.mdsdrv_psg_loop_max : Int)
+  · rw [if_pos h'] at h
+    cases h
+    exact ⟨by omega, _, rfl⟩
+  · rw [if_neg h'] at h
+    cases h
 
 end Ctrmml.MdsData
